@@ -292,6 +292,24 @@ def rule_R10(src, ed, lo, hi, fname):
         i += 1
 
 
+def rule_R18(src, ed, lo, hi, fname):
+    """`panic!(..)` (format machinery is outside this Verus) -> `__panic()`: a declared external function
+    that never returns (`ensures false`); the message is dropped, the abort stays where it is."""
+    toks = src.toks
+    i = lo
+    while i < hi:
+        t = toks[i]
+        if _skipped(i):
+            i += 1
+            continue
+        if t.kind == "ident" and t.text == "panic" and toks[i + 1].text == "!" and toks[i + 2].text == "(":
+            close = src.pairs[i + 2]
+            ed.replace(t.pos, toks[close].end, "__panic()", rule="R18 %s: `panic!(..)` -> `__panic()` (diverges)" % fname)
+            i = close + 1
+            continue
+        i += 1
+
+
 def rule_R17(src, ed, lo, hi, fname):
     """`continue` in a `for` loop (rejected by this Verus): a top-level statement of the loop body of the
     form `if COND { continue; }` (no else) followed by the rest R of the body becomes
@@ -581,7 +599,7 @@ def rule_R3m(src, ed, lo, hi, fname):
 F64_FIELDS = []   # set per function from the unit (`f64_fields`): struct fields of type f64
 
 
-RULES = {"R17": rule_R17, "R3m": rule_R3m, "R13": rule_R13, "R12": rule_R12, "R2": rule_R2, "R9": rule_R9, "R1": rule_R1, "R3": rule_R3, "R7": rule_R7, "R8": rule_R8, "R10": rule_R10}
+RULES = {"R18": rule_R18, "R17": rule_R17, "R3m": rule_R3m, "R13": rule_R13, "R12": rule_R12, "R2": rule_R2, "R9": rule_R9, "R1": rule_R1, "R3": rule_R3, "R7": rule_R7, "R8": rule_R8, "R10": rule_R10}
 SKIP = []  # token ranges (s, e) in which rules must not fire (abstracted statements)
 
 
@@ -866,6 +884,11 @@ def _extract_expr_closure(src, spec, ed, first, limit):
                 SKIP.append((ts[0], ts[-1] + 1))
     for r in spec.get("rules", ["R17", "R3", "R1", "R9", "R12", "R13", "R10"]):
         RULES[r](src, ed, first, last + 1, name)
+    if spec.get("rename_self"):
+        # R15: the receiver of the enclosing method is the parameter `self_` of the stand-alone fn
+        for i in range(first, last + 1):
+            if toks[i].kind == "ident" and toks[i].text == "self" and not _skipped(i):
+                ed.replace(toks[i].pos, toks[i].end, "self_")
     del SKIP[:]
     ed.log.append("BLOCK %s: expression body of closure #%d (header %s) of `%s` emitted as fn %s(%s); the iterator chain it is passed to is not part of this unit" % (
         name, spec["closure"], spec.get("header_re", ""), spec["path"], name, spec["params"]))
